@@ -40,6 +40,9 @@ func c19BadConfigs(rulesOK string) []badCfg {
 		{"rules-nomatch+valid", []string{"-enable=ruleguard", "-@ruleguard.rules=/nonexistent/dir/*.go," + rulesOK}, []string{"-enable=ruleguard", "-disable=", "-@ruleguard.rules=/nonexistent/dir/*.go," + rulesOK}, "no file matching|nonexistent"},
 		{"failOn=dsl,bogus", []string{"-enable=ruleguard", "-@ruleguard.rules=" + rulesOK, "-@ruleguard.failOn=dsl,bogus"}, []string{"-enable=ruleguard", "-disable=", "-@ruleguard.rules=" + rulesOK, "-@ruleguard.failOn=dsl,bogus"}, "failOn"},
 		{"go=1.21.x", []string{"-go=1.21.x"}, []string{"-go=1.21.x"}, "version|-go"},
+		// a failing checker next to a healthy one: still nothing is analysed, whatever the package count
+		{"rules-nomatch+other-checker", []string{"-enable=ruleguard,assignOp", "-@ruleguard.rules=/nonexistent/dir/*.go"}, []string{"-enable=ruleguard,assignOp", "-disable=", "-@ruleguard.rules=/nonexistent/dir/*.go"}, "no file matching|nonexistent"},
+		{"failOn=bogus+other-checker", []string{"-enable=assignOp,ruleguard", "-@ruleguard.rules=" + rulesOK, "-@ruleguard.failOn=bogus"}, []string{"-enable=assignOp,ruleguard", "-disable=", "-@ruleguard.rules=" + rulesOK, "-@ruleguard.failOn=bogus"}, "failOn"},
 		{"empty-selection-unknown", []string{"-enable=nosuchchecker"}, []string{"-enable=nosuchchecker", "-disable="}, "empty"},
 		{"empty-selection-disabled", []string{"-enable=assignOp", "-disable=assignOp"}, []string{"-enable=assignOp", "-disable=assignOp"}, "empty"},
 		{"bad-param-int", []string{"-@hugeParam.sizeThreshold=abc"}, []string{"-@hugeParam.sizeThreshold=abc"}, "sizeThreshold|invalid value"},
@@ -168,7 +171,7 @@ func c19(args []string) int {
 	ev.Set("latch_states", states)
 	ev.Set("latch_transitions", transitions)
 	ev.Sample(map[string]interface{}{"invalid_config": "-go=1.x", "frontends": feNames, "package_counts": []int{1, 2, 3}, "oracle": "exit!=0, message names the problem, no panic/goroutine trace, no diagnostics, same outcome class for every package count"})
-	ev.Set("rule", "13 invalid configurations x 4 real binaries x 1..3 packages; all sequences of <=4 analyzer passes over {valid, 3 invalid} configurations from the reset latch on the real runAnalyzer; target sets of <=2 packages over 7 load-fault kinds x 4 binaries; ill-typed variants of the examples analysed in-process. non-trivial = distinct (configuration, front-end, package count) or history")
+	ev.Set("rule", "19 invalid configurations x 4 real binaries x 1..3 packages; all sequences of <=4 analyzer passes over {valid, 3 invalid} configurations from the reset latch on the real runAnalyzer; target sets of <=2 packages over 11 load-fault kinds (incl. files that fail at or before their package clause) x 4 binaries; ill-typed variants of the examples analysed in-process. non-trivial = distinct (configuration, front-end, package count) or history")
 	return ev.Finish()
 }
 
@@ -299,6 +302,11 @@ var loadFaultKinds = []struct {
 	{"syntax-error", map[string]string{"x.go": "package PKG\n\nfunc F( {\n"}},
 	{"type-error", map[string]string{"x.go": "package PKG\n\nfunc F(a int, b int) int {\n\ta = a + b\n\tvar s string = a\n\treturn undefinedName + s\n}\n"}},
 	{"unresolved-import", map[string]string{"x.go": "package PKG\n\nimport \"example.com/nosuch/dep\"\n\nfunc F(a int, b int) int {\n\ta = a + b\n\treturn dep.X(a)\n}\n"}},
+	// files that fail at or before their package clause (the parser hands out a stub file without positions)
+	{"empty-file", map[string]string{"x.go": "package PKG\n\nfunc F(a int, b int) int {\n\ta = a + b\n\treturn a\n}\n", "e.go": ""}},
+	{"comment-only-file", map[string]string{"x.go": "package PKG\n\nfunc F(a int, b int) int {\n\ta = a + b\n\treturn a\n}\n", "c.go": "// nothing but a comment\n"}},
+	{"code-before-package-clause", map[string]string{"x.go": "package PKG\n\nfunc F(a int, b int) int {\n\ta = a + b\n\treturn a\n}\n", "b.go": "func early() {}\n\npackage PKG\n"}},
+	{"only-an-empty-file", map[string]string{"e.go": ""}},
 	{"mixed-package-clauses", map[string]string{"x.go": "package PKG\n\nfunc F() {}\n", "y.go": "package other\n\nfunc G() {}\n"}},
 	{"import-cycle", map[string]string{"x.go": "package PKG\n\nimport \"w/PKG/sub\"\n\nfunc F() int { return sub.G() }\n", "sub/s.go": "package sub\n\nimport \"w/PKG\"\n\nfunc G() int { PKG.F(); return 1 }\n"}},
 	{"only-test-files", map[string]string{"x_test.go": "package PKG\n\nimport \"testing\"\n\nfunc TestF(t *testing.T) {\n\ta, b := 1, 2\n\ta = a + b\n\t_ = a\n}\n"}},
